@@ -20,7 +20,7 @@ RULE = ("one PRNG(seed): hybrid tensors with 2..5 modes (sizes 1..5), per-mode f
 TRUSTED = ["NumPy contraction of the cores (PT.dense) as the value of a tensor", "float64 slack terms listed in RULE"]
 ASSUMPTIONS = ["inputs are WFstd tensors (documented formats, outer TT ranks 1)"]
 
-VARIANTS = ["generic", "generic", "generic", "overrank", "overrank", "rankdef", "zero", "illcond"]
+VARIANTS = ["generic", "generic", "generic", "overrank", "overrank", "rankdef", "zero", "illcond", "zeroslice"]
 
 
 # ----------------------------------------------------------------------------- generation
@@ -46,6 +46,23 @@ def mk_tensor(rng, N, variant, tt_only=False):
                     t.cores[n] = c
             if t.Us[n] is not None and t.Us[n].shape[1] >= 2 and rng.random() < 0.4:
                 U = t.Us[n].copy(); U[:, -1] = 2.0 * U[:, 0]
+                t.Us[n] = U
+    elif variant == "zeroslice":
+        # exactly zero rank slices (what `tn.zeros(shape) + t`, `tn.cat([zeros, t])` or padding leave behind), in FIRST or interior position of
+        # a bond, followed by non-zero ones; exactly zero factor columns; exactly zero spatial slices
+        for n in range(N):
+            c = t.cores[n].copy()
+            r = rng.random()
+            if r < 0.5 and c.shape[-1] >= 2:
+                k = 0 if rng.random() < 0.6 else rng.randrange(c.shape[-1] - 1)
+                c[..., k] = 0.0
+            elif r < 0.65 and c.ndim == 3 and c.shape[0] >= 2:
+                c[0 if rng.random() < 0.6 else rng.randrange(c.shape[0] - 1), :, :] = 0.0
+            elif r < 0.75:
+                c[..., rng.randrange(c.shape[-2]), :] = 0.0
+            t.cores[n] = c
+            if t.Us[n] is not None and t.Us[n].shape[1] >= 2 and rng.random() < 0.4:
+                U = t.Us[n].copy(); U[:, 0] = 0.0
                 t.Us[n] = U
     elif variant == "zero":
         n = rng.randrange(N)
